@@ -86,6 +86,11 @@ CLAIMED = {
    text="4-statement sequences of generated statements are placed at top level, in a function body and in a block; a malformed, bracket-balanced statement from a menu is inserted at each boundary. When the parser recovers (tree returned), the statements before the insertion point must be present in the same list with fingerprints (tokens, offsets, positions) identical to the unbroken parse, and at least one later statement must be present. Every tree returned with errors (also from the scanner cover and random bytes) must have tokens with strictly increasing disjoint offsets holding source slices, no shared node/token, and print exactly the concatenation of its tokens.",
    note="Trusted: menu of malformed statements; fingerprint identity. goyacc driver-level properties (PrefixKept, NoInvention on LRDriver.tla) are future work recorded in DESIGN.md.",
    design="5 (C07)"),
+ "C11": dict(
+   technique="TLA+ interleaving model (Interleave.tla: N workers x K gates, invariant Ownership; TLC enumerates all schedules) replayed on the real code through blocking verif hooks (Parser.Lex gate, gating writer under the printer); un-gated stress under the Go race detector with sequential cross-check",
+   text="TLC enumerates every interleaving of the gate points of 2-3 workers (K = 2-4) and checks Ownership on the model; each schedule (sampled above a cap) is replayed: the workers' pipelines (parse, print, dump, resolve) run on their own goroutines and are stepped through the hook inside Parser.Lex or a gating writer in exactly that order; each worker's tree fingerprint, errors, printed text, dump and resolved names must equal its solo results. The same pipelines then run un-gated on 16 goroutines in a -race build (halt on first report); data races, panics, deviations from the sequential results and differences between two parses of the same input are violations.",
+   note="Trusted: Go race detector, the gate implementation (concurrent.go). Lost-update corruption shows deterministically under gating; unsynchronised access under -race. Schedules are sampled when numerous.",
+   design="5 (C11), 3.8"),
 }
 
 REASONS_PENDING = "check not built yet in this round; see DESIGN.md section 9 for the construction order"
